@@ -11,7 +11,8 @@ import PnVerif.Gen.IoSites
   The tables `sites`, `chains`, `paths`, `explicitMap` are REGENERATED from the C source on every run
   (tools/gen_c11_iosites.py); the theorems below are re-checked against the regenerated tables, so a
   new `onlyIfEFILE` site, a deleted `status = err`, an `err` that a later call overwrites ... changes a
-  table row and either the partial theorem or the exception list stops checking.
+  table row: it becomes a present exception, the full statement is refuted for that tree, and the check
+  reports the row unless KNOWN_FINDINGS.txt has a finding for it.
 
   The full statement `NoSilentDrop_Statement` is FALSE of a tree that still has dropping rows (the
   known defects, each replayed on the real library by the fault-injection harness) and TRUE of a tree
